@@ -209,13 +209,13 @@ func cmdCheck(args []string) int {
 			mine = append(mine, ob)
 		}
 	}
-	timeout := 10
+	timeout := 20
 	if *tier == "thorough" {
-		timeout = 60
+		timeout = 90
 	}
 	qdir := filepath.Join(os.TempDir(), fmt.Sprintf("gverif-%s-%d", *prop, os.Getpid()))
 	ts := time.Now()
-	solveAll(x.ctx, mine, qdir, timeout, 16, *tier == "thorough")
+	solveAll(x.ctx, mine, qdir, timeout, 8, *tier == "thorough")
 	solveS := time.Since(ts).Seconds()
 	if !*keep {
 		defer os.RemoveAll(qdir)
